@@ -630,7 +630,20 @@ class Gen:
     def taxes(self, cc, allow_included_safe=False):
         rng = self.rng
         if cc == "ES":
-            k = rng.randrange(12)
+            k = rng.randrange(16)
+            if k == 12:     # same percentage with and without an extension: groups must stay apart, in either order
+                return [{"cat": "VAT", "percent": rng.choice(["21%", "10%", "0%"]), "ext": {"es-zz-kind": rng.choice(["A", "B"])}}]
+            if k == 13:     # exempt (no percentage at all), locally or under a country override
+                t = {"cat": "VAT"}
+                if rng.random() < 0.5:
+                    t["country"] = rng.choice(["PT", "FR"])
+                if rng.random() < 0.3:
+                    t["ext"] = {"es-zz-kind": "A"}
+                return [t]
+            if k == 14:
+                return [{"cat": "VAT", "percent": rng.choice(["21%", "10%"]), "country": rng.choice(["PT", "FR"])}]
+            if k == 15:
+                return [{"cat": "VAT", "percent": rng.choice(["21%", "10%", "0%"])}]
             if k == 0:
                 return [{"cat": "VAT", "rate": "standard"}]
             if k == 1:
@@ -775,6 +788,9 @@ class Gen:
             doc["discounts"] = d
         if ch:
             doc["charges"] = ch
+        if rng.random() < 0.12:
+            # an externally supplied rounding adjustment (EN 16931 BT-114) at the currency's precision
+            doc["totals"] = {"rounding": fmt(A(rng.choice([1, -1, 2, 5, -3]), c))}
         if rng.random() < 0.2:
             dd_rows = []
             for i in range(rng.randint(1, 3)):
